@@ -108,6 +108,11 @@ def build_alphabet(lab, which=0):
             h = "/".join(pa[:-1] + [hn])
             if model.natural(h) is model.natural(anc[2]):
                 al[hk] = h
+        # siblings whose (folder) names share the text before the last dot: folders have no "file extension", their data is their own
+        for dk, dn in (("D1", "mr.smith"), ("D2", "mr.jones"), ("D3", "mr")):
+            dsib = "/".join(pa[:-1] + [dn])
+            if model.natural(dsib) is model.natural(anc[2]):
+                al[dk] = dsib
         dd = "/".join(pa[:-1] + [".."])
         if model.natural(dd) is model.natural(anc[2]):
             al["DD"] = dd      # observed only: '..' names a folder that is there without anything having been created
@@ -177,7 +182,7 @@ def ops_alphabet(al):
             ops.append(("setpos", r, "k1"))      # positional form set(sid, attribute, value), falsy values
         if r in ("F1", "P"):
             ops.append(("set", r, "sid"))        # an attribute that happens to be called 'sid': the record's own Sid still wins
-        if r in ("H1",):
+        if r in ("H1", "D1"):
             ops.append(("set", r, "k2"))
         if r in ("F1", "V"):
             ops.append(("set_w2", r, "k2"))          # the same write through ANOTHER Writer instance (another tool, another user)
